@@ -567,7 +567,13 @@ class NDNApp:
         else:
             deadline += DEFAULT_LIFETIME
         node.append_interest(future, deadline, interest_param, validator, implicit_sha256)
-        self.face.send(raw_interest)
+        try:
+            self.face.send(raw_interest)
+        except BaseException:
+            # The Interest never left: nothing may stay pending for it (nobody will ever await or time out the future)
+            if node.timeout(future) and self._pit.get(node_name) is node:
+                del self._pit[node_name]
+            raise
         return self._wait_for_data(future, deadline, node_name, node)
 
     async def _wait_for_data(self, future: aio.Future, deadline: int, node_name: enc.FormalName,
